@@ -431,17 +431,13 @@ func c14remoteDeleteClearsSubscription(c *Ctx) {
 	n := 0
 	for _, g := range engine.WithClosures(f) {
 		var dels []ssa.Instruction
-		cut := map[ssa.Instruction]bool{}
+		cut := c.mustCallInstrs(g, func(cc *ssa.CallCommon) bool {
+			return cc.IsInvoke() && cc.Method.Name() == "RemoveDeletedSubscriptionWithName"
+		}, 2)
 		for _, cs := range engine.Calls(g) {
 			cc := cs.Common()
-			if !cc.IsInvoke() || cs.Instr.Parent() != g {
-				continue
-			}
-			switch cc.Method.Name() {
-			case "DeleteMailboxWithRemoteID":
+			if cc.IsInvoke() && cs.Instr.Parent() == g && cc.Method.Name() == "DeleteMailboxWithRemoteID" {
 				dels = append(dels, cs.Instr)
-			case "RemoveDeletedSubscriptionWithName":
-				cut[cs.Instr] = true
 			}
 		}
 		for _, d := range dels {
